@@ -19,14 +19,19 @@ def run(ctx):
            evkeys=("op", "M", "detail"))
     n = 48 if ctx.quick else 1600
     shards = core.NCPU
-    gen = ctx.run_impl("c11", [dict(id=k, mode="gen", seed=ctx.seed * 1009 + k, n=max(1, n // shards)) for k in range(shards)], nproc=shards,
+    gen = ctx.run_impl("c11", [dict(id=k, mode="gen", seed=ctx.seed * 1009 + k, n=max(2, n // shards), wide=1 if ctx.quick else 6) for k in range(shards)], nproc=shards,
                        timeout_s=3000 if ctx.quick else 9000, env=dict(VERIF_CASE_TIMEOUT=900 if ctx.quick else 3000))
     cases = []
+    nwide = 0
     for k in range(shards):
         if gen[k].get("st") in ("crashed", "timeout"):
             ctx.violation("M3", "_pwm_to_mapping %s on a realistic PWM" % gen[k]["st"], dict(mode="shard", seed=ctx.seed * 1009 + k), cls=gen[k]["st"])
             continue
         cases += gen[k]["cases"]
+        for wc in gen[k].get("wide", []):
+            nwide += 1
+            if wc["v"]:
+                ctx.violation("M3", wc["v"], dict(mode="wide", w=wc["w"], bin_size=wc["bin_size"], seed=ctx.seed * 1009 + k), cls=wc["v"].split(" (")[0][:50])
     for i, c in enumerate(cases):
         c["id"] = i + 1
     ocases = [dict(id=c["id"], M=c["M"], R=c["R"]) for c in cases]
@@ -47,7 +52,7 @@ def run(ctx):
                             table_head=c["table"][:3]))
     ctx.cov["evaluations"] += len(cases)
     ctx.cov["traces_validated_against_impl"] += len(cases)
-    ctx.lane("M3", pwms=len(cases), fimo_hit_pvalues=nhits, call_histories=sum(1 for c in cases if c.get("step") == 2), mismatches=nbad, widths=sorted({c["w"] for c in cases}), max_bins=max([c["R"] for c in cases] or [0]))
+    ctx.lane("M3", wide_motifs=nwide, pwms=len(cases), fimo_hit_pvalues=nhits, call_histories=sum(1 for c in cases if c.get("step") == 2), mismatches=nbad, widths=sorted({c["w"] for c in cases}), max_bins=max([c["R"] for c in cases] or [0]))
     # negative control: a table shifted by 4^-w must be refused by the comparison
     c0 = dict(cases[0]); c0["table"] = [t if isinstance(t, str) else __import__("math").log2(2.0 ** t + 4.0 ** -c0["w"]) for t in c0["table"]]
     ctx.negative_control("a table offset by 4^-w must be refused", bool(compare_tables(c0, oracle[cases[0]["id"]])))
